@@ -32,7 +32,8 @@ PLAN = {
     "C15": {"runs": [(S, "reads", 400, 10000, []), (S, "mixed", 80, 2000, [])]},
     "C16": {"runs": [("pure", "tables", 1, 1, []), (S, "mixed", 240, 6000, []), (S, "reads", 120, 3000, []), (S, "pressure", 120, 3000, [])]},
     "C17": {"runs": [(S, "boundary", 400, 10000, []), (S, "mixed", 80, 2000, [])]},
-    "C18": {"runs": [(S, "burst", 240, 6000, []), (S, "mixed", 160, 4000, [])]},
+    "C18": {"runs": [("locks", "stress", 700, 6000, []), (S, "burst", 240, 6000, []), (S, "mixed", 160, 4000, [])],
+            "rule": "free-running stress (4 client threads + worker + sweeper + consumer, 3 configurations incl. queue size 1, pool 1, 2 shards) with an instrumented lock_api: every observed (held lock class -> acquired lock class) pair and the locks held at every schedule point are validated against the Lean lock table (rank order, nothing held at blocking channel operations), a watchdog requires every thread to keep completing calls and shutdown() to return under load; plus Layer A histories with parked sends; non-trivial = a case with a nested acquisition or a parked call"},
 }
 
 TRIGGERS = {
@@ -53,7 +54,7 @@ TRIGGERS = {
     "C15": _any(lambda s: s.kind == "consumer" or "out:" in s.out),
     "C16": _any(lambda s: s.kind == "stats"),
     "C17": _any(lambda s: s.out.startswith("panic") or s.out.startswith("workerpanic") or s.kind in ("putwttl", "putttl")),
-    "C18": _any(lambda s: s.out.startswith("parked") or s.kind == "shutdown"),
+    "C18": _any(lambda s: s.out.startswith("parked") or s.kind == "shutdown" or (s.kind == "locks" and s.toks and s.toks[0] == "edge")),
 }
 
 DEPENDS = {
